@@ -11,8 +11,7 @@ use std::panic::{catch_unwind, AssertUnwindSafe};
 
 /// Install a panic hook that prints nothing (subject panics are observations).
 pub fn silence_panics() {
-    if std::env::var("VERIF_DEBUG_PANIC").is_ok() { return; }
-    std::panic::set_hook(Box::new(|_| {}));
+    report::install_panic_hook();
 }
 
 /// Run `f`, turning a panic into `Err(message)`.
